@@ -115,9 +115,16 @@ def run(ctx):
     # (a) corpus + whole programs
     corpus = []
     cdir = os.path.join(C.VERIF, "corpus", "C01")
+    probe_of = {}                         # program text -> id of the open finding it is the witness of
     for fn in sorted(os.listdir(cdir)) if os.path.isdir(cdir) else []:
-        text = "\n".join(l for l in open(os.path.join(cdir, fn)).read().split("\n") if not l.startswith("#"))
-        corpus += [p for p in text.split(SEP) if p.strip()]
+        raw = open(os.path.join(cdir, fn)).read()
+        m = re.search(r"^# finding: (\S+)", raw, re.M)
+        text = "\n".join(l for l in raw.split("\n") if not l.startswith("#"))
+        ps = [p for p in text.split(SEP) if p.strip()]
+        corpus += ps
+        if m:
+            for p in ps:
+                probe_of[p] = m.group(1)
     n = 320 if ctx.quick() else 20000
     size = 3 if ctx.quick() else 4
     gen = [gen_program(rng, size) for _ in range(n)]
@@ -143,6 +150,11 @@ def run(ctx):
         if same(r, m):
             continue
         stats["disagreements_checked"] += 1
+        if probe_of.get(p) in known:
+            # the witness program of an open finding (corpus file with a `# finding:` header) still fails
+            ctx.known_finding("id=%s %s" % (probe_of[p], known[probe_of[p]]))
+            stats["known_hits"][probe_of[p]] = stats["known_hits"].get(probe_of[p], 0) + 1
+            continue
         ctx.violation("C01-prog-%d.txt" % i, "# program\n%s\n# real engine : %s output=%r\n# specification: %s output=%r\n" % (
             p, r["res"], r["out"][:300], m["res"], m["out"][:300]))
         if len(ctx.violations) >= 5:
